@@ -156,3 +156,51 @@ Theorem C02_prophotorgb_16_monotone : forall v1 v2, is_finite v1 = true -> is_fi
   encode 65535 K65535 enc16_prophotorgb v1 <= encode 65535 K65535 enc16_prophotorgb v2.
 Proof. exact (encode_monotone 65535 K65535 ltac:(lia) K65535_ok enc16_prophotorgb enc16_prophotorgb_len enc16_prophotorgb_sorted). Qed.
 Print Assumptions C02_prophotorgb_16_monotone.
+
+(* srgb, 8-bit output, EVERY finite float32 v in [0,1]: the table sample used, k, is within 1/2 + 2^-15 of
+   v*511 (half a table step plus float32 rounding), and the result is within 1/2 + 2^-7 code of 255*OETF(k/511) *)
+Theorem C02_srgb_8_accurate_for_every_float : forall v, is_finite v = true -> (0 <= B2R v <= 1)%R ->
+  exists k, 0 <= k <= 511 /\ (Rabs (IZR k - B2R v * IZR 511) <= /2 + bpow radix2 (9 - 24))%R /\
+            (Rabs (IZR (encode 511 K511 enc8_srgb v) - IZR 255 * oetf Srgb (IZR k / IZR 511)) <= tol)%R.
+Proof. exact (fun v => encode_accurate 511 K511 ltac:(lia) K511_ok enc8_srgb 255 enc8_srgb_len Srgb 9 v enc8_srgb_ok HE511). Qed.
+Print Assumptions C02_srgb_8_accurate_for_every_float.
+
+(* srgb, 16-bit output, EVERY finite float32 v in [0,1]: the table sample used, k, is within 1/2 + 2^-8 of
+   v*65535 (half a table step plus float32 rounding), and the result is within 1/2 + 2^-7 code of 65535*OETF(k/65535) *)
+Theorem C02_srgb_16_accurate_for_every_float : forall v, is_finite v = true -> (0 <= B2R v <= 1)%R ->
+  exists k, 0 <= k <= 65535 /\ (Rabs (IZR k - B2R v * IZR 65535) <= /2 + bpow radix2 (16 - 24))%R /\
+            (Rabs (IZR (encode 65535 K65535 enc16_srgb v) - IZR 65535 * oetf Srgb (IZR k / IZR 65535)) <= tol)%R.
+Proof. exact (fun v => encode_accurate 65535 K65535 ltac:(lia) K65535_ok enc16_srgb 65535 enc16_srgb_len Srgb 16 v enc16_srgb_ok HE65535). Qed.
+Print Assumptions C02_srgb_16_accurate_for_every_float.
+
+(* adobergb, 8-bit output, EVERY finite float32 v in [0,1]: the table sample used, k, is within 1/2 + 2^-15 of
+   v*511 (half a table step plus float32 rounding), and the result is within 1/2 + 2^-7 code of 255*OETF(k/511) *)
+Theorem C02_adobergb_8_accurate_for_every_float : forall v, is_finite v = true -> (0 <= B2R v <= 1)%R ->
+  exists k, 0 <= k <= 511 /\ (Rabs (IZR k - B2R v * IZR 511) <= /2 + bpow radix2 (9 - 24))%R /\
+            (Rabs (IZR (encode 511 K511 enc8_adobergb v) - IZR 255 * oetf Adobe (IZR k / IZR 511)) <= tol)%R.
+Proof. exact (fun v => encode_accurate 511 K511 ltac:(lia) K511_ok enc8_adobergb 255 enc8_adobergb_len Adobe 9 v enc8_adobergb_ok HE511). Qed.
+Print Assumptions C02_adobergb_8_accurate_for_every_float.
+
+(* adobergb, 16-bit output, EVERY finite float32 v in [0,1]: the table sample used, k, is within 1/2 + 2^-8 of
+   v*65535 (half a table step plus float32 rounding), and the result is within 1/2 + 2^-7 code of 65535*OETF(k/65535) *)
+Theorem C02_adobergb_16_accurate_for_every_float : forall v, is_finite v = true -> (0 <= B2R v <= 1)%R ->
+  exists k, 0 <= k <= 65535 /\ (Rabs (IZR k - B2R v * IZR 65535) <= /2 + bpow radix2 (16 - 24))%R /\
+            (Rabs (IZR (encode 65535 K65535 enc16_adobergb v) - IZR 65535 * oetf Adobe (IZR k / IZR 65535)) <= tol)%R.
+Proof. exact (fun v => encode_accurate 65535 K65535 ltac:(lia) K65535_ok enc16_adobergb 65535 enc16_adobergb_len Adobe 16 v enc16_adobergb_ok HE65535). Qed.
+Print Assumptions C02_adobergb_16_accurate_for_every_float.
+
+(* prophotorgb, 8-bit output, EVERY finite float32 v in [0,1]: the table sample used, k, is within 1/2 + 2^-15 of
+   v*511 (half a table step plus float32 rounding), and the result is within 1/2 + 2^-7 code of 255*OETF(k/511) *)
+Theorem C02_prophotorgb_8_accurate_for_every_float : forall v, is_finite v = true -> (0 <= B2R v <= 1)%R ->
+  exists k, 0 <= k <= 511 /\ (Rabs (IZR k - B2R v * IZR 511) <= /2 + bpow radix2 (9 - 24))%R /\
+            (Rabs (IZR (encode 511 K511 enc8_prophotorgb v) - IZR 255 * oetf Prophoto (IZR k / IZR 511)) <= tol)%R.
+Proof. exact (fun v => encode_accurate 511 K511 ltac:(lia) K511_ok enc8_prophotorgb 255 enc8_prophotorgb_len Prophoto 9 v enc8_prophotorgb_ok HE511). Qed.
+Print Assumptions C02_prophotorgb_8_accurate_for_every_float.
+
+(* prophotorgb, 16-bit output, EVERY finite float32 v in [0,1]: the table sample used, k, is within 1/2 + 2^-8 of
+   v*65535 (half a table step plus float32 rounding), and the result is within 1/2 + 2^-7 code of 65535*OETF(k/65535) *)
+Theorem C02_prophotorgb_16_accurate_for_every_float : forall v, is_finite v = true -> (0 <= B2R v <= 1)%R ->
+  exists k, 0 <= k <= 65535 /\ (Rabs (IZR k - B2R v * IZR 65535) <= /2 + bpow radix2 (16 - 24))%R /\
+            (Rabs (IZR (encode 65535 K65535 enc16_prophotorgb v) - IZR 65535 * oetf Prophoto (IZR k / IZR 65535)) <= tol)%R.
+Proof. exact (fun v => encode_accurate 65535 K65535 ltac:(lia) K65535_ok enc16_prophotorgb 65535 enc16_prophotorgb_len Prophoto 16 v enc16_prophotorgb_ok HE65535). Qed.
+Print Assumptions C02_prophotorgb_16_accurate_for_every_float.
